@@ -351,95 +351,87 @@ Qed.
 End PF.
 
 (* ---------------------------------------------------------------------------------------------------------- *)
-(* lifting to the global state *)
-Section PFGlobal.
+(* lifting a per-generation invariant P (over the generation and the shared source position) to every reachable state:
+   generic in P, given its closure under the reader's and the consumer's steps *)
+Section Lift.
 Variable c : cfg.
-Hypothesis Hpf : k_pm c = false.
+Variable P : gen -> nat -> Prop.
+Hypothesis P_new : forall base ff, P (new_gen c base ff) base.
+Hypothesis P_ff : forall g pos n, P g pos -> P (g <| g_ff := n |>) pos.
+Hypothesis P_idle_pc : forall g pos p, P g pos -> g_c g = CIdle -> (p = CChk \/ p = CShSet) -> P (g <| g_c := p |>) pos.
+Hypothesis P_cstep : forall m g pos, P g pos -> P (fst (cstep c m g)) pos.
+Hypothesis P_rstep : forall m g pos, P g pos -> P (fst (rstep c m g pos)) (snd (rstep c m g pos)).
+Hypothesis P_wstep : forall i m g pos, P g pos -> wstep c i m g = g.
+Hypothesis P_sstep : forall m g pos, P g pos -> sstep c m g = g.
 
-Definition PFcur (s : state) : Prop := forall g, cur s = Some g -> PFinv g (s_pos s).
+Definition Pcur (s : state) : Prop := forall g, cur s = Some g -> P g (s_pos s).
 
-Lemma pf_ff g pos n : PFinv g pos -> PFinv (g <| g_ff := n |>) pos.
-Proof. intros [R ST Q QP CNT HO RC TE GE INI PC WS MAIN SN0]. constructor; assumption. Qed.
-
-Lemma pf_idle_pc g pos p : PFinv g pos -> g_c g = CIdle -> (p = CChk \/ p = CShSet) -> PFinv (g <| g_c := p |>) pos.
-Proof.
-  intros H Hc Hp. apply pf_quiet_pc; auto.
-  - intros Ht. destruct (p_term _ _ H Ht) as [Hx|Hx]; [rewrite Hc in Hx; discriminate | exact Hx].
-  - rewrite Hc. reflexivity.
-Qed.
-
-Lemma pfcur_frame s s' : PFcur s -> s_gens s' = s_gens s -> s_pos s' = s_pos s -> PFcur s'.
+Lemma pcur_frame s s' : Pcur s -> s_gens s' = s_gens s -> s_pos s' = s_pos s -> Pcur s'.
 Proof. intros H E1 E2 g Hg. unfold cur in Hg. rewrite E1 in Hg. rewrite E2. apply H, Hg. Qed.
 
-Lemma pfcur_set_cur s g : PFinv g (s_pos s) -> PFcur (set_cur g s).
+Lemma pcur_set_cur s g : P g (s_pos s) -> Pcur (set_cur g s).
 Proof. intros H g0 E. rewrite cur_set_cur in E. injection E as <-. exact H. Qed.
 
-Lemma pfcur_construct l s : PFcur (construct c l s).
+Lemma pcur_construct l s : Pcur (construct c l s).
 Proof.
   unfold construct. destruct (match l with Some j => nth j (s_states s) (0, 0) | None => (0, 0) end) as [base ff].
   intros g E. unfold cur in E. cbn in E. rewrite map_app in E. cbn in E. rewrite last_app_single in E. injection E as <-.
-  cbn. apply pf_new, Hpf.
+  cbn. apply P_new.
 Qed.
 
 Definition CurIdleP (s : state) : Prop := forall g, cur s = Some g -> g_c g = CIdle.
 
-Lemma pf_dispatch : forall todo s, PFcur s -> CurIdleP s -> PFcur (dispatch c todo s).
+Lemma p_dispatch : forall todo s, Pcur s -> CurIdleP s -> Pcur (dispatch c todo s).
 Proof.
   induction todo as [|a t IH]; intros s H Hi; cbn.
-  - apply (pfcur_frame s); auto.
+  - apply (pcur_frame s); auto.
   - destruct a; destruct (cur s) as [g|] eqn:Ec.
-    all: try (apply (pfcur_frame s); auto; fail).
-    + apply (pfcur_frame (set_cur (g <| g_c := CChk |>) s)); auto. apply pfcur_set_cur, pf_idle_pc; auto.
-    + apply IH; [apply (pfcur_frame s); auto | intros g0 E0; apply Hi; exact E0].
-    + apply (pfcur_frame (set_cur (g <| g_c := CShSet |>) s)); auto. apply pfcur_set_cur, pf_idle_pc; auto.
-    + apply (pfcur_frame (construct c load s)); auto. apply pfcur_construct.
-    + apply (pfcur_frame (set_cur (g <| g_c := CShSet |>) s)); auto. apply pfcur_set_cur, pf_idle_pc; auto.
-    + apply (pfcur_frame (construct c load s)); auto. apply pfcur_construct.
-    + apply (pfcur_frame (construct c load s)); auto. apply pfcur_construct.
-    + apply IH; [apply (pfcur_frame s); auto | intros g0 E0; apply Hi; exact E0].
-    + apply IH; [apply (pfcur_frame s); auto | intros g0 E0; apply Hi; exact E0].
+    all: try (apply (pcur_frame s); auto; fail).
+    + apply (pcur_frame (set_cur (g <| g_c := CChk |>) s)); auto. apply pcur_set_cur, P_idle_pc; auto.
+    + apply IH; [apply (pcur_frame s); auto | intros g0 E0; apply Hi; exact E0].
+    + apply (pcur_frame (set_cur (g <| g_c := CShSet |>) s)); auto. apply pcur_set_cur, P_idle_pc; auto.
+    + apply (pcur_frame (construct c load s)); auto. apply pcur_construct.
+    + apply (pcur_frame (set_cur (g <| g_c := CShSet |>) s)); auto. apply pcur_set_cur, P_idle_pc; auto.
+    + apply (pcur_frame (construct c load s)); auto. apply pcur_construct.
+    + apply (pcur_frame (construct c load s)); auto. apply pcur_construct.
+    + apply IH; [apply (pcur_frame s); auto | intros g0 E0; apply Hi; exact E0].
+    + apply IH; [apply (pcur_frame s); auto | intros g0 E0; apply Hi; exact E0].
 Qed.
 
-Lemma pf_complete o s g : cur s = Some g -> g_c g = CIdle -> PFinv g (s_pos s) -> PFcur (complete c o s).
+Lemma p_complete o s g : cur s = Some g -> g_c g = CIdle -> P g (s_pos s) -> Pcur (complete c o s).
 Proof.
   intros Ec Hc H. unfold complete. rewrite Ec.
-  assert (PFcur s) as Hs by (intros g0 E0; rewrite Ec in E0; injection E0 as <-; exact H).
+  assert (Pcur s) as Hs by (intros g0 E0; rewrite Ec in E0; injection E0 as <-; exact H).
   assert (CurIdleP s) as Hi by (intros g0 E0; rewrite Ec in E0; injection E0 as <-; exact Hc).
-  assert (forall ob, PFcur (log ob s) /\ CurIdleP (log ob s)) as Hlog.
-  { intros ob. split; [apply (pfcur_frame s); auto | intros g0 E0; apply Hi; exact E0]. }
-  assert (forall n ob, PFcur (log ob (set_cur (g <| g_ff := n |>) s)) /\ CurIdleP (log ob (set_cur (g <| g_ff := n |>) s))) as Hff.
+  assert (forall ob, Pcur (log ob s) /\ CurIdleP (log ob s)) as Hlog.
+  { intros ob. split; [apply (pcur_frame s); auto | intros g0 E0; apply Hi; exact E0]. }
+  assert (forall n ob, Pcur (log ob (set_cur (g <| g_ff := n |>) s)) /\ CurIdleP (log ob (set_cur (g <| g_ff := n |>) s))) as Hff.
   { intros n ob. split.
-    - apply (pfcur_frame (set_cur (g <| g_ff := n |>) s)); auto. apply pfcur_set_cur, pf_ff, H.
+    - apply (pcur_frame (set_cur (g <| g_ff := n |>) s)); auto. apply pcur_set_cur, P_ff, H.
     - intros g0 E0. unfold log, cur in E0. cbn in E0. rewrite map_app in E0. cbn in E0. rewrite last_app_single in E0. injection E0 as <-. exact Hc. }
-  assert (forall n, PFcur (set_cur (g <| g_ff := n |> <| g_c := CChk |>) s)) as Hchk.
-  { intros n. apply pfcur_set_cur. apply (pf_idle_pc (g <| g_ff := n |>)); [apply pf_ff, H | exact Hc | left; reflexivity]. }
+  assert (forall n, Pcur (set_cur (g <| g_ff := n |> <| g_c := CChk |>) s)) as Hchk.
+  { intros n. apply pcur_set_cur. apply (P_idle_pc (g <| g_ff := n |>)); [apply P_ff, H | exact Hc | left; reflexivity]. }
   destruct o; repeat match goal with |- context [match ?x with _ => _ end] => destruct x end.
-  all: try (apply pf_dispatch; [apply Hlog | apply Hlog]; fail).
-  all: try (apply pf_dispatch; [apply Hff | apply Hff]; fail).
+  all: try (apply p_dispatch; [apply Hlog | apply Hlog]; fail).
+  all: try (apply p_dispatch; [apply Hff | apply Hff]; fail).
   all: try (apply Hchk; fail).
-  all: try (apply pf_dispatch; assumption).
-  all: try (apply (pfcur_frame s); auto; fail).
-  all: try (apply pfcur_set_cur; apply pf_idle_pc; auto; fail).
+  all: try (apply p_dispatch; assumption).
+  all: try (apply (pcur_frame s); auto; fail).
+  all: try (apply pcur_set_cur; apply P_idle_pc; auto; fail).
 Qed.
 
-Lemma wstep_pf i m g pos : PFinv g pos -> wstep c i m g = g.
-Proof. intros H. unfold wstep. rewrite (proj1 (p_ws _ _ H)). destruct i; reflexivity. Qed.
-Lemma sstep_pf m g pos : PFinv g pos -> sstep c m g = g.
-Proof. intros H. unfold sstep. rewrite (proj2 (p_ws _ _ H)). reflexivity. Qed.
-
-Lemma pf_step s ch : Own s -> (s_started s = false -> s_gens s = []) -> PFcur s -> PFcur (step c s ch).
+Lemma p_step s ch : Own s -> (s_started s = false -> s_gens s = []) -> Pcur s -> Pcur (step c s ch).
 Proof.
   intros Ho Hs0 H. destruct ch as [t m]. destruct t as [|gi [|i|]]; unfold step.
   - destruct (s_cdone s); [exact H|]. destruct (s_started s) eqn:Est; cbn [negb].
-    2: { (* before the consumer thread starts there is no iterator at all *)
-         apply pf_dispatch; [apply (pfcur_frame s); auto|]. intros g E. exfalso.
+    2: { apply p_dispatch; [apply (pcur_frame s); auto|]. intros g E. exfalso.
          unfold cur in E. cbn in E. rewrite (Hs0 eq_refl) in E. discriminate. }
     destruct (cur s) as [g|] eqn:Ec; [|exact H].
-      destruct (cstep c m g) as [g' o] eqn:Es.
-      assert (PFinv g' (s_pos s)) as Hg' by (replace g' with (fst (cstep c m g)) by (rewrite Es; reflexivity); apply pf_cstep; [exact Hpf | apply H, Ec]).
-      destruct o as [o|]; [|apply pfcur_set_cur, Hg'].
-      apply (pf_complete o (set_cur g' s) g'); [apply cur_set_cur | | exact Hg'].
-      replace g' with (fst (cstep c m g)) by (rewrite Es; reflexivity). apply cstep_some_idle with (o := o). rewrite Es. reflexivity.
+    destruct (cstep c m g) as [g' o] eqn:Es.
+    assert (P g' (s_pos s)) as Hg' by (replace g' with (fst (cstep c m g)) by (rewrite Es; reflexivity); apply P_cstep, H, Ec).
+    destruct o as [o|]; [|apply pcur_set_cur, Hg'].
+    apply (p_complete o (set_cur g' s) g'); [apply cur_set_cur | | exact Hg'].
+    replace g' with (fst (cstep c m g)) by (rewrite Es; reflexivity). apply cstep_some_idle with (o := o). rewrite Es. reflexivity.
   - destruct (nth_error (s_gens s) gi) as [g|] eqn:En; [|exact H].
     destruct (rstep c m g (s_pos s)) as [g' pos'] eqn:Er.
     destruct (g_r g) eqn:Egr.
@@ -452,17 +444,49 @@ Proof.
       intros g0 E0; unfold cur in E0; cbn in E0; rewrite Eupd, map_app in E0; cbn in E0; rewrite last_app_single in E0; injection E0 as <-;
       cbn; replace g' with (fst (rstep c m g (s_pos s))) by (rewrite Er; reflexivity);
       replace pos' with (snd (rstep c m g (s_pos s))) by (rewrite Er; reflexivity);
-      apply pf_rstep; apply H, Ec; fail).
-    (* a reader that has exited *)
+      apply P_rstep, H, Ec; fail).
     assert (rdone g) as Hd by exact Egr. rewrite (rstep_done c m g (s_pos s) Hd) in Er. injection Er as <- <-.
-    rewrite (upd_nth_same _ _ _ En). apply (pfcur_frame s); auto.
+    rewrite (upd_nth_same _ _ _ En). apply (pcur_frame s); auto.
   - intros g' E. cbn.
-    apply (cur_upd (fun g => PFinv g (s_pos s)) (wstep c i m) gi s); [| exact E | exact H].
-    intros x Hx. rewrite (wstep_pf i m x _ Hx). exact Hx.
+    apply (cur_upd (fun g => P g (s_pos s)) (wstep c i m) gi s); [| exact E | exact H].
+    intros x Hx. rewrite (P_wstep i m x _ Hx). exact Hx.
   - intros g' E. cbn.
-    apply (cur_upd (fun g => PFinv g (s_pos s)) (sstep c m) gi s); [| exact E | exact H].
-    intros x Hx. rewrite (sstep_pf m x _ Hx). exact Hx.
+    apply (cur_upd (fun g => P g (s_pos s)) (sstep c m) gi s); [| exact E | exact H].
+    intros x Hx. rewrite (P_sstep m x _ Hx). exact Hx.
 Qed.
+
+(* P holds of the current generation in every reachable state of every schedule without a reader-join timeout *)
+Theorem p_reachable script sched : jt_free c (init script) sched = true -> Pcur (run c sched (init script)).
+Proof.
+  intros Hj. unfold run.
+  assert (forall sch s, Own s -> Inv c s -> Pcur s -> jt_free c s sch = true -> Pcur (fold_left (step c) sch s)) as HG.
+  { induction sch as [|ch sch IH]; intros s Ho Hi Hp Hjt; cbn in *; [exact Hp|].
+    apply andb_true_iff in Hjt as [Hj1 Hj2]. apply negb_true_iff in Hj1.
+    apply IH; [apply own_step; [exact Ho | exact (proj2 Hi) | exact Hj1] | apply inv_step, Hi | apply p_step; [exact Ho | exact (proj2 Hi) | exact Hp] | exact Hj2]. }
+  apply HG; [apply own_init | apply inv_init | intros g0 E0; discriminate | exact Hj].
+Qed.
+
+End Lift.
+
+(* ---------------------------------------------------------------------------------------------------------- *)
+Section PFGlobal.
+Variable c : cfg.
+Hypothesis Hpf : k_pm c = false.
+
+Lemma pf_ff g pos n : PFinv g pos -> PFinv (g <| g_ff := n |>) pos.
+Proof. intros [R ST Q QP CNT HO RC TE GE INI PC WS MAIN SN0]. constructor; assumption. Qed.
+
+Lemma pf_idle_pc g pos p : PFinv g pos -> g_c g = CIdle -> (p = CChk \/ p = CShSet) -> PFinv (g <| g_c := p |>) pos.
+Proof.
+  intros H Hc Hp. apply pf_quiet_pc; auto.
+  - intros Ht. destruct (p_term _ _ H Ht) as [Hx|Hx]; [rewrite Hc in Hx; discriminate | exact Hx].
+  - rewrite Hc. reflexivity.
+Qed.
+
+Lemma wstep_pf i m g pos : PFinv g pos -> wstep c i m g = g.
+Proof. intros H. unfold wstep. rewrite (proj1 (p_ws _ _ H)). destruct i; reflexivity. Qed.
+Lemma sstep_pf m g pos : PFinv g pos -> sstep c m g = g.
+Proof. intros H. unfold sstep. rewrite (proj2 (p_ws _ _ H)). reflexivity. Qed.
 
 (* C06 for the Prefetcher: along every schedule without a reader-join timeout, in every reachable state, what state_dict()
    would return (snapshot, steps_since_snapshot) of the current iterator denotes exactly the consumer's position *)
@@ -471,15 +495,147 @@ Theorem prefetcher_tracks_consumer script sched :
   forall g, cur (run c sched (init script)) = Some g ->
   g_snap g + g_steps g = g_base g + g_recv g /\ g_snap g <= g_base g + g_recv g.
 Proof.
-  intros Hj. unfold run.
-  assert (forall sch s, Own s -> Inv c s -> PFcur s -> jt_free c s sch = true -> PFcur (fold_left (step c) sch s)) as HG.
-  { induction sch as [|ch sch IH]; intros s Ho Hi Hp Hjt; cbn in *; [exact Hp|].
-    apply andb_true_iff in Hjt as [Hj1 Hj2]. apply negb_true_iff in Hj1.
-    apply IH; [apply own_step; [exact Ho | exact (proj2 Hi) | exact Hj1] | apply inv_step, Hi | apply pf_step; [exact Ho | exact (proj2 Hi) | exact Hp] | exact Hj2]. }
-  intros g Eg.
-  assert (PFcur (fold_left (step c) sched (init script))) as HP.
-  { apply HG; [apply own_init | apply inv_init | intros g0 E0; discriminate | exact Hj]. }
-  pose proof (p_main _ _ (HP g Eg)) as HM. split; [exact HM | lia].
+  intros Hj g Eg.
+  pose proof (p_reachable c PFinv (pf_new c Hpf) pf_ff pf_idle_pc (pf_cstep c Hpf) (pf_rstep c) wstep_pf sstep_pf script sched Hj g Eg) as HP.
+  pose proof (p_main _ _ HP) as HM. split; [exact HM | lia].
 Qed.
 
 End PFGlobal.
+
+(* ---------------------------------------------------------------------------------------------------------- *)
+(* C04 for the Prefetcher: what the consumer receives is the source, in order, each item once *)
+Section PFData.
+Variable c : cfg.
+Hypothesis Hpf : k_pm c = false.
+
+(* what next(source) produces at position pos *)
+Definition spay (pos : nat) : payload :=
+  if match k_err c with Some e => e =? pos | None => false end then PErr 0
+  else match nth_error (k_xs c) pos with Some x => PItem x | None => PStop end.
+
+Record PF2 (g : gen) : Prop := {
+  d_q : Forall (fun e => fst e = spay (g_base g + snd e)) (g_q1 g);
+  d_r : match g_r g with
+        | RStore x i _ => PItem x = spay (g_base g + i)
+        | RPut p i _ => p = spay (g_base g + i)
+        | _ => True
+        end;
+  d_c : forall x i, g_c g = CRel x i -> PItem x = spay (g_base g + i);
+  d_items : Forall2 (fun x k => PItem x = spay (g_base g + k)) (g_items g) (seq 0 (g_recv g)) }.
+
+Definition PFall (g : gen) (pos : nat) : Prop := PFinv g pos /\ PF2 g.
+
+Lemma pf2_new base ff : PF2 (new_gen c base ff).
+Proof. unfold new_gen. rewrite Hpf. constructor; cbn; auto; try constructor; try (intros x i Hx; discriminate). Qed.
+
+Lemma pf2_rstep m g pos : PFinv g pos -> PF2 g -> PF2 (fst (rstep c m g pos)).
+Proof.
+  intros HI [DQ DR DC DI]. pose proof (p_rpos _ _ HI) as R. unfold RPos in R. unfold rstep.
+  destruct (g_r g) eqn:Er; cbn [fst].
+  - constructor; cbn; auto.
+  - constructor; cbn; auto.
+  - destruct (g_stop g); constructor; cbn; auto.
+  - destruct m; [destruct (g_sem g)|]; cbn; try (constructor; cbn; rewrite ?Er; auto; fail).
+    all: constructor; cbn; auto.
+  - (* RPull: exactly what the source has at this position *)
+    destruct R as [R1 R2].
+    assert (spay pos = spay (g_base g + g_ridx g)) as Hs by (rewrite R1; reflexivity).
+    unfold spay in Hs at 1.
+    destruct (match k_err c with Some e => e =? pos | None => false end) eqn:Ee.
+    + constructor; cbn; auto.
+    + destruct (nth_error (k_xs c) pos) as [x|] eqn:En.
+      * destruct ((0 <? k_sf c) && (S (g_ryield g) mod k_sf c =? 0)); constructor; cbn; auto.
+      * constructor; cbn; auto.
+  - constructor; cbn; auto.
+  - (* RPut *)
+    constructor; cbn; auto.
+    + apply Forall_app. split; [exact DQ | constructor; [exact DR | constructor]].
+    + destruct last; exact I.
+  - constructor; cbn; rewrite ?Er; auto.
+Qed.
+
+Lemma forall2_snoc {A B} (R : A -> B -> Prop) l1 l2 a b : Forall2 R l1 l2 -> R a b -> Forall2 R (l1 ++ [a]) (l2 ++ [b]).
+Proof. induction 1; cbn; intros; constructor; auto. Qed.
+
+Ltac d2 Ec := constructor; cbn; rewrite ?Ec; auto; try (let x0 := fresh in let i0 := fresh in let Hx := fresh in intros x0 i0 Hx; rewrite ?Ec in Hx; discriminate).
+
+Lemma pf2_cstep m g pos : PFinv g pos -> PF2 g -> PF2 (fst (cstep c m g)).
+Proof.
+  intros HI [DQ DR DC DI]. unfold cstep. rewrite (outq_pf c Hpf), Hpf.
+  destruct (g_c g) eqn:Ec; cbn [fst].
+  - (* CIdle *) d2 Ec.
+  - (* CSleep *) d2 Ec.
+  - (* CInit *) destruct m; [destruct (g_store g) as [|[v sp] tl]|]; d2 Ec.
+  - (* CChk *) destruct (g_stop g); d2 Ec.
+  - (* CChk2 *) destruct (g_mpstop g); [|destruct ((g_done g || negb (r_alive g)) && (g_sem g =? kmax c))]; d2 Ec.
+  - (* CStopA *) d2 Ec.
+  - (* CStopB *) d2 Ec.
+  - (* CGet *)
+    destruct m; [|d2 Ec].
+    destruct (g_q1 g) as [|[p i] tl] eqn:Eq; [d2 Ec; rewrite ?Eq; auto|].
+    rewrite (set_outq_pf c Hpf). inversion DQ as [|? ? Hp DQt]; subst. cbn in Hp.
+    destruct p as [x| |e]; constructor; cbn; auto; intros x0 i0 Hx; try discriminate.
+    injection Hx as <- <-. exact Hp.
+  - (* CRel: the item joins the received ones *)
+    pose proof (p_hold _ _ HI x i (or_introl Ec)) as Hi.
+    destruct (p_get _ _ HI (or_intror (ex_intro _ x (ex_intro _ i Ec)))) as [Htf _].
+    pose proof (p_recv _ _ HI Htf) as Hr. rewrite Ec in Hr. cbn in Hr.
+    assert (i = g_recv g) as -> by lia.
+    destruct (pop_version (S (g_recv g)) (g_store g)) as [[sp|] rest]; constructor; cbn; auto; try (intros x0 i0 Hx; discriminate).
+    all: change (0 :: seq 1 (g_recv g)) with (seq 0 (S (g_recv g))); rewrite seq_S; apply forall2_snoc; [exact DI | apply (DC x (g_recv g) eq_refl)].
+  - (* CRelStop *) d2 Ec.
+  - (* CRelErr *) d2 Ec.
+  - (* CSetStop *) d2 Ec.
+  - (* CShSet *) destruct (after_join_pc c (g <| g_stop := true |>) 0) as (p & -> & Hp).
+    constructor; cbn; auto. intros x0 i0 Hx. destruct Hp as [->|[k' ->]]; discriminate.
+  - (* CShSet2 *) destruct (after_join_pc c (g <| g_mpstop := true |>) 0) as (p & -> & Hp).
+    constructor; cbn; auto. intros x0 i0 Hx. destruct Hp as [->|[k' ->]]; discriminate.
+  - (* CShJoin *) destruct (after_join_pc c g (S k)) as (p & Ep & Hp).
+    assert (PF2 (fst (after_join c g (S k)))) as HA.
+    { rewrite Ep. constructor; cbn; auto. intros x0 i0 Hx. destruct Hp as [->|[k' ->]]; discriminate. }
+    destruct m; destruct (stage_alive c g k); cbn [fst]; auto; d2 Ec.
+Qed.
+
+Lemma pfall_reachable script sched : jt_free c (init script) sched = true ->
+  forall g, cur (run c sched (init script)) = Some g -> PFall g (s_pos (run c sched (init script))).
+Proof.
+  intros Hj.
+  apply (p_reachable c PFall); auto.
+  - intros base ff. split; [apply pf_new, Hpf | apply pf2_new].
+  - intros g pos n [H1 [DQ DR DC DI]]. split; [apply pf_ff, H1 | constructor; assumption].
+  - intros g pos p [H1 [DQ DR DC DI]] Hc Hp. split; [apply pf_idle_pc; auto|]. constructor; cbn; auto.
+    intros x i Hx. destruct Hp as [->| ->]; discriminate.
+  - intros m g pos [H1 H2]. split; [apply pf_cstep; auto | eapply pf2_cstep; eauto].
+  - intros m g pos [H1 H2]. split; [apply pf_rstep; auto | eapply pf2_rstep; eauto].
+  - intros i m g pos [H1 _]. eapply wstep_pf; eauto.
+  - intros m g pos [H1 _]. eapply sstep_pf; eauto.
+Qed.
+
+(* C04 (Prefetcher is the identity) + C06 together: along every schedule without a reader-join timeout, in every reachable
+   state, the items the current iterator has handed to the consumer are exactly the source's items from the position it
+   was started at, in order, each once — and its state denotes the position right after them *)
+Theorem prefetcher_is_identity script sched : jt_free c (init script) sched = true ->
+  forall g, cur (run c sched (init script)) = Some g ->
+  g_items g = firstn (g_recv g) (skipn (g_base g) (k_xs c)) /\ g_snap g + g_steps g = g_base g + g_recv g.
+Proof.
+  intros Hj g Eg. destruct (pfall_reachable script sched Hj g Eg) as [H1 [DQ DR DC DI]].
+  split; [|exact (p_main _ _ H1)].
+  (* every received item sits at its index in the source *)
+  assert (forall l n, Forall2 (fun x k => PItem x = spay (g_base g + k)) l (seq 0 n) -> l = firstn n (skipn (g_base g) (k_xs c))) as HF.
+  { intros l n. revert l. induction n as [|n IH]; intros l HL.
+    - inversion HL. reflexivity.
+    - rewrite seq_S in HL. apply Forall2_app_inv_r in HL. destruct HL as (l1 & l2 & H1' & H2' & ->).
+      inversion H2' as [|x k lx lk Hx Hrest]; subst. inversion Hrest; subst.
+      rewrite (IH l1 H1'). cbn in Hx. unfold spay in Hx.
+      destruct (match k_err c with Some e => e =? g_base g + n | None => false end); [discriminate|].
+      destruct (nth_error (k_xs c) (g_base g + n)) as [y|] eqn:En; [|discriminate]. injection Hx as ->.
+      assert (nth_error (skipn (g_base g) (k_xs c)) n = Some y) as En'.
+      { clear -En. revert En. generalize (g_base g) (k_xs c). intros b l. revert l. induction b as [|b IHb]; intros l E; cbn in *; [exact E|].
+        destruct l as [|a l]; [destruct (b + n); discriminate | apply IHb, E]. }
+      clear -En'. revert n En'. generalize (skipn (g_base g) (k_xs c)). intros l. induction l as [|a l IHl]; intros [|n] E; cbn in *; try discriminate.
+      + injection E as ->. reflexivity.
+      + f_equal. apply IHl, E. }
+  apply HF, DI.
+Qed.
+
+End PFData.
